@@ -535,6 +535,72 @@ C05_NESTED_READ = (G, "gosym_part", dict(name="c05_nested_conversion_read", entr
                                     "the innermost element conversion reads the element of the source container, throws iff the symbolic 64-bit value does not fit the new element type, else stores static_cast<new> "
                                     "into the destination container"))
 
+def c05_bulk_key(aid, events, outs):
+    o = {x["key"]: x["val"] for x in outs}
+    # one key for the emitter / runtime defect, whatever record shape, change and container exhibit it
+    if aid == "bulk-path-preserves-element-function":
+        return "c05:compat-serializer-bypassed-by-bulk-path"
+    return "c05:%s:%s:%s" % (aid, o.get("family", "?"), o.get("context", "?"))
+
+
+def c05_assign_key(aid, events, outs):
+    o = {x["key"]: x["val"] for x in outs}
+    return "c05:%s:%s:%s" % (aid, o.get("change", "?"), o.get("context", "?"))
+
+
+C05_BULK_ASSUME = ["meaning of the runtime combinators (which of them have the `if constexpr (IsTriviallySerializable<T>::value)` bulk path, and the runtime's own IsTriviallySerializable "
+                   "specializations) transcribed from tooling/internal/cpp/include/detail/binary/serializers.h; every native replay re-derives both lists from the embedded header and "
+                   "must agree (a changed header makes the part INCONCLUSIVE until the transcription is redone)",
+                   "struct layout by the LP64 little-endian ABI: sizes / alignments of the fixed-width C++ types, members at the next multiple of their alignment in declaration order; "
+                   "the record's emitted IsTriviallySerializable guard is evaluated on that layout (c14_trivially_serializable decides that a true guard means memcpy image = field-by-field encoding)",
+                   "emitted texts read back: types.h members (structs, `using` aliases incl. the compatibility aliases), the IsTriviallySerializable specializations, the serializers and "
+                   "compatibility serializers (stream calls in order; other statements must be declarations / assignments / control flow without stream access), the protocol methods (zz_cppstmt.go)",
+                   "model family: record Rec {a, b} with field added / field removed (from the middle) / field a retyped (number -> number) / unchanged, or alias Rec = number retyped, per previous "
+                   "version; a over {float32, float64, uint8, complexfloat32, bool, float32*2, int32, string}, b over {float32, uint8, string} (thorough: + float64, complexfloat32, int32); "
+                   "the step is Rec / Rec* / stream of Rec / Rec*3 / Rec? / a record holding Rec*; arrays of changed records are rejected by the evolution analyser (known finding C06)"]
+C05_BULK_BYPASS = (G, "gosym_part", dict(name="c05_compat_bulk_bypass", entry="internal/zzverif.C05BulkBypass", args_quick=(1, 6, 3, 0), args_thorough=(2, 6, 6, 0),
+                               extra_thorough=("-max-paths", "400000"), key_fn=c05_bulk_key,
+                               required_sites=("documented-compatible-changes-accepted", "emitters-total", "only-known-statement-forms", "only-known-serializer-forms",
+                                               "bulk-path-preserves-element-function"),
+                               assumptions=C05_BULK_ASSUME,
+                               desc="real Validate / ValidateEvolution on a symbolic record / alias change in a symbolic container context, then the real C++ types, IsTriviallySerializable, serializer, "
+                                    "compatibility-serializer and protocol-method emitters, read back: at EVERY call of a runtime combinator that has a bulk (memcpy) path — "
+                                    "{Read,Write}Vector / Array / NDArray..., ReadBlocksIntoVector — instantiated <T, F>, reached from any writer / reader method under any version: if T (the type the "
+                                    "compatibility alias resolves to, i.e. the CURRENT definition) is trivially serializable by the runtime's and the generator's own rules, the memcpy image of T is "
+                                    "exactly the wire plan the element function F reads / writes; otherwise the previous version's compatibility serializer is never called and sizeof(current T) bytes "
+                                    "per element are read from / written to a stream laid out for the previous version"))
+C05_STRUCT_PLANS = (G, "gosym_part", dict(name="c05_compat_struct_plans", entry="internal/zzverif.C05BulkBypass", args_quick=(1, 6, 3, 1), args_thorough=(2, 6, 6, 1),
+                               extra_thorough=("-max-paths", "400000"), key_fn=c05_bulk_key,
+                               required_sites=("documented-compatible-changes-accepted", "emitters-total", "only-known-statement-forms", "only-known-serializer-forms",
+                                               "value-step-writes-one-value", "value-step-reads-one-value", "single-write-is-one-block", "batch-writes-every-item-once",
+                                               "single-read-delivers-one-item", "batch-read-is-one-kernel-call", "batch-read-delivers-the-items-read"),
+                               assumptions=C05_BULK_ASSUME + ["every combinator is given its element function's meaning here (the premise c05_compat_bulk_bypass decides), so that a wrong "
+                                                              "compatibility serializer or a wrong routing of version_ is reported under its own key"] + CPP_PROTO_ASSUME,
+                               desc="same models and emitted texts: for every listed previous version and Current, every writer (Write, batch Write, End) and reader (Read, batch Read) method routes "
+                                    "version_ to a body that writes / reads exactly THAT version's wire format, with STRUCTURAL plans — a record is the sequence of its fields' plans, taken on the "
+                                    "oracle side from that version's own validated model and on the emitted side from the stream calls of the (compatibility) serializer the body names "
+                                    "(field added: not read, reset; field removed: read into / written from a temporary; field retyped: read / written in the old type); block rules as in C01"))
+C05_ASSIGN_ASSUME = ["abstract store: every variable is stale (what the caller's reused object held) / zero (`= {}`, clear()) / set (assigned from the wire or from an expression over non-stale "
+                     "variables); a stream read call assigns its whole argument (kernels: c17_cc_reuse; element functions: compat-reader-assigns-every-field of the same part); "
+                     "`xs.resize(ys.size())` makes xs stale until the element loop over ys has stored a non-stale item at [i]",
+                     "every data-dependent condition of the emitted code (has_value(), index() == k, switch (x.index()), range guards, the block read delivering an item) is a symbolic input; "
+                     "`if constexpr (IsTriviallySerializable<T>::value)` is evaluated as in c05_compat_bulk_bypass; a catch (...) handler must re-throw",
+                     "change kinds (one per TypeChange the analyser produces): " + "int32->int64, int64->int32, float64->int32, complexfloat64->complexfloat32, int32->string, string->int32, int32->int32?, "
+                     "int32?->int32, int32->[string,int32], [string,int32]->int32, int32?->int64?, [null,int32,string]->int32?, int32?->[null,int32,string], [int32,string]->[int32,string,bool], "
+                     "[int32,string,bool]->[string,int32], int32?->string?, unchanged; contexts: the step, vector element, stream item, field of a record that also gains (g: int32, o: string?) and "
+                     "loses (h: string) fields as a step and as a stream item, alias target; the current protocol has two added steps (t: int32?, u: stream of int32); one emitted function per path",
+                     "not covered: conversions nested two containers deep (vector of vector, optional of vector, fixed vector: emitted as ill-formed C++, known findings), maps / arrays (changes rejected)"]
+C05_DEFINITE_ASSIGNMENT = (G, "gosym_part", dict(name="c05_definite_assignment", entry="internal/zzverif.C05DefiniteAssignment", args_quick=(16, 6, 0), args_thorough=(16, 6, 1),
+                               extra_thorough=("-max-paths", "400000"), key_fn=c05_assign_key,
+                               required_sites=("documented-compatible-changes-accepted", "emitters-total", "only-known-statement-forms", "read-target-definitely-assigned",
+                                               "compat-reader-assigns-every-field", "written-value-definitely-assigned"),
+                               assumptions=C05_ASSIGN_ASSUME,
+                               desc="real Validate / ValidateEvolution on one change of every kind in a symbolic context, then the real serializer / compatibility-serializer / protocol-method emitters, "
+                                    "read back and run on an abstract store with symbolic branch conditions: on every path that does not throw, a reader method that reports a value has assigned its "
+                                    "(reused) destination — from the wire, from a conversion of what was read, or the documented zero value — and never left it as it was; a (compatibility) serializer "
+                                    "reading a record assigns EVERY member of the destination (fields the previous version lacks are reset); whatever a writer passes to the stream was assigned or "
+                                    "declared zero before"))
+
 C13_IMPORTED_GENERICS = (G, "gosym_part", dict(name="c13_order_imported_generics", entry="internal/zzverif.C13ImportedGenerics", args_quick=(0, 1), args_thorough=(1, 2),
                                required_sites=("reordered-accepted", "reordered-does-not-panic", "same-schema", "dependencies-first", "oracle-sees-through-imported-generics",
                                                "same-field-plan", "same-python-serializer", "same-step-plan"),
@@ -620,6 +686,9 @@ PARTS = {
         C05_SWITCH_READER,
         C04_CPP_SCHEMAS_PART,  # a writer targeting a previous version is accepted by that version's reader; a stream of a previous version selects that version's conversions
         C05_NESTED_READ,
+        C05_BULK_BYPASS,      # the bulk (memcpy) path of the runtime must not replace a previous version's compatibility serializer
+        C05_STRUCT_PLANS,     # every version's body reads / writes that version's structural wire plan
+        C05_DEFINITE_ASSIGNMENT,   # conversions and compatibility readers assign their (reused) destination on every path
         (G, "gosym_part", dict(name="c05_nested_conversion_write", entry="internal/zzverif.C05NestedConversion", args_quick=(1,), args_thorough=(1,), key_fn=c05_nested_key,
                                required_sites=("element-wise-data-flow", "assigns-static-cast-to-target", "no-silent-wrap", "no-spurious-overflow-error"),
                                assumptions=C05_ASSUME,
@@ -733,6 +802,7 @@ PARTS = {
         C14_TRIVIAL_PART,   # the memcpy fast path writes exactly the field-by-field bytes of docs/reference/binary.md (no padding)
         C01_CPP_PROTO_WRITER,
         C01_CPP_PROTO_READER,
+        C05_BULK_BYPASS,   # wire-format conformance of vectors / arrays / stream batches of records when the writer targets (the reader reads) a previous version
         (CC, "c17_cc_reuse", dict()),   # the value read is the value written, whatever the destination object held before (vectors, maps, blocks)
     ],
     "C03": [
@@ -755,6 +825,8 @@ PARTS = {
         ("py_numpy", "c17_py_block_headers", dict()),   # block header = varint of a symbolic 64-bit block length (1..10 bytes), read and write side
         C01_CPP_PROTO_WRITER,   # how a writer's items are batched (incl. empty batches) never shows on the wire except as block boundaries
         C05_NESTED_READ,   # element-wise conversions of batch reads go through a fresh item and reset their target: no item depends on what the destination held before
+        C05_DEFINITE_ASSIGNMENT,   # no reader method / compatibility serializer / conversion leaves (part of) a reused destination as it was: an item never depends on the previous one
+        C05_BULK_BYPASS,   # a batch read (ReadBlocksIntoVector, bulk path) and single reads (ReadBlock, element function) of the same previous-version stream must deliver the same items
     ],
     "C15": [
         C04_EMBED_PART,
@@ -1004,6 +1076,12 @@ PARTS = {
                                                          "fetchAndCachePackages (os.Chdir/Getwd on the virtual file system, net/url.Parse through the native parser on concrete URLs) are real"],
                                desc="package importing ../dep; the editor breaks dep's manifest (an import that cannot be fetched: unsupported scheme or missing directory), repairs it and "
                                     "changes the model, waiting for the watcher to go idle each time: watcher survives, process cwd is the package directory whenever idle, final output = one-shot output")),
+        (G, "gosym_part", dict(name="c20_invalid_start", entry="internal/cmd.VerifC20InvalidStart", args_quick=(0,), args_thorough=(1,),
+                               extra_quick=("-replay-sample", "6"), extra_thorough=("-replay-sample", "6", "-max-paths", "3000000"),
+                               required_sites=("nothing-generated-from-an-invalid-package", "converged-to-one-shot-output", "watcher-keeps-running", "one-shot-accepts-the-repaired-package"),
+                               assumptions=C20_ASSUME + ["start-up scenario: the package importing ../dep is invalid when the watcher starts (root model / imported model / imported manifest, symbolic); the "
+                                                         "editor repairs it, optionally after an unrelated edit, waiting for the watcher to go idle each time (thorough: one preemption)"],
+                               desc="the watcher is started on an invalid package: nothing is generated, and once the offending file - wherever it lies - is repaired, the output equals the one-shot output")),
         (G, "gosym_part", dict(name="c20_import_interleaved", entry="internal/cmd.VerifC20Import", args_quick=(1, 1), args_thorough=(1, 1),
                                extra_quick=("-replay-sample", "2", "-max-paths", "200000"), extra_thorough=("-replay-sample", "4", "-max-paths", "3000000"),
                                required_sites=("converged-to-one-shot-output", "cwd-is-package-dir-when-idle", "watcher-keeps-running"),
